@@ -288,8 +288,21 @@ func (c07) Gen(seed uint64, run int, tier string) *Plan {
 			tag := fmt.Sprintf("c07f%d", tagN)
 			name, class := c07GenName(r, p.Knobs, tag, own, other)
 			collide := 0
+			orig := ""
 			if p.Knobs["collide"] == 1 && len(g.open) > 0 && r.Intn(2) == 0 {
 				name, class, collide = pick(r, g.open).name, c07Collide, 1
+				orig = name
+				// ... possibly spelled differently: the same file all the same
+				switch r.Intn(4) {
+				case 0:
+					name = ".\\" + name
+				case 1:
+					if i := strings.IndexAny(name, "\\/"); i >= 0 {
+						name = name[:i] + "\\.\\" + name[i+1:]
+					} else {
+						name = "x\\..\\" + name
+					}
+				}
 			}
 			slot := -1
 			if proto == "fs" {
@@ -297,7 +310,11 @@ func (c07) Gen(seed uint64, run int, tier string) *Plan {
 			} else if !cfg.SendLogs || r.Intn(2) == 0 {
 				slot = newTask(a, c07TaskSleep, "")
 			}
-			emit(Action{Kind: "open", A: a, B: slot, C: fid, D: r.Intn(5), S: name, T: proto, L: []int{collide, class}})
+			act := Action{Kind: "open", A: a, B: slot, C: fid, D: r.Intn(5), S: name, T: proto, L: []int{collide, class}}
+			if orig != "" && orig != name {
+				act.SS = []string{orig}
+			}
+			emit(act)
 			// drop a now-superseded entry of the same id from the generator's view
 			var keep []*c07GenX
 			for _, o := range g.open {
@@ -426,6 +443,7 @@ type c07Op struct {
 	data    []byte
 	arg     int
 	collide bool
+	orig    string // collide: the name under which the transfer that owns the file was opened
 	act     int
 }
 
@@ -866,6 +884,10 @@ func (st *c07State) queue(ai int, a Action, idx int) {
 	switch a.Kind {
 	case "open":
 		op.name = a.S
+		op.orig = a.S
+		if len(a.SS) > 0 {
+			op.orig = a.SS[0]
+		}
 		op.size = []int64{0, 1, 4096, 1 << 40, -1}[((a.D%5)+5)%5]
 		if len(a.L) > 0 && a.L[0] == 1 {
 			op.collide = true
@@ -936,7 +958,7 @@ func (st *c07State) takeBatch(ai int) ([]*c07Op, []world.Pkg) {
 				break
 			}
 			if op.collide {
-				target, known := ag.byName[op.name]
+				target, known := ag.byName[op.orig]
 				if !known || st.snap[target].Size <= 0 {
 					// the truncation would be invisible: make the name unique instead
 					op.collide = false
@@ -1199,7 +1221,7 @@ func (st *c07State) apply(b *c07Batch, ch []c07Change, reowned map[string]bool) 
 		accepted = created[0]
 	case open != nil && open.collide:
 		// no new file: the open re-used (truncated) the file of an earlier open of this name
-		target := ag.byName[open.name]
+		target := ag.byName[open.orig]
 		for _, m := range modified {
 			if m == target {
 				accepted = target
@@ -1230,6 +1252,12 @@ func (st *c07State) apply(b *c07Batch, ch []c07Change, reowned map[string]bool) 
 				// what becomes of the superseded file is not pinned down, it is no longer tracked
 				ag.taint[op.fid] = "reopened-id"
 				res.Probe("reopen-accepted")
+			}
+			if shared {
+				// two transfers of one agent write one file: neither can be "exactly the chunks sent
+				// for its file id" any more
+				st.violate("content", "same-target-two-transfers", fmt.Sprintf("agent %s: open of %q (id %d) was accepted and truncated %s while another transfer is still writing that file", ag.id, short(op.name, 80), op.fid, accepted))
+				return false
 			}
 			if shared {
 				x.shared = true
